@@ -2,6 +2,7 @@ package harness
 
 import (
 	"os"
+	"strings"
 	"sync"
 	"sync/atomic"
 
@@ -20,20 +21,40 @@ var (
 	dpanicLast  string
 )
 
-func (countingCore) Enabled(l zapcore.Level) bool        { return l >= zapcore.DPanicLevel }
+func (countingCore) Enabled(l zapcore.Level) bool        { return l >= zapcore.ErrorLevel }
 func (c countingCore) With([]zapcore.Field) zapcore.Core { return c }
 func (c countingCore) Check(e zapcore.Entry, ce *zapcore.CheckedEntry) *zapcore.CheckedEntry {
-	if e.Level >= zapcore.DPanicLevel {
+	if e.Level >= zapcore.DPanicLevel || (e.Level == zapcore.ErrorLevel && strings.Contains(e.Message, "POTENTIAL DEADLOCK")) {
 		return ce.AddCore(e, c)
 	}
 	return ce
 }
 func (countingCore) Write(e zapcore.Entry, _ []zapcore.Field) error {
+	if e.Level == zapcore.ErrorLevel {
+		// the report of the lock tracker (go-deadlock) is logged by the core at error level
+		dpanicMu.Lock()
+		if len(lockReports) < 4 {
+			lockReports = append(lockReports, e.Message)
+		}
+		dpanicMu.Unlock()
+		return nil
+	}
 	dpanicCount.Add(1)
 	dpanicMu.Lock()
 	dpanicLast = e.Message
 	dpanicMu.Unlock()
 	return nil
+}
+
+var lockReports []string
+
+// LockTrackerReports returns (and forgets) what the lock tracker reported so far.
+func LockTrackerReports() []string {
+	dpanicMu.Lock()
+	defer dpanicMu.Unlock()
+	out := lockReports
+	lockReports = nil
+	return out
 }
 func (countingCore) Sync() error { return nil }
 
@@ -43,7 +64,7 @@ var logOnce sync.Once
 // callback of the core keeps the loggers quiet.
 // It also keeps the event ring buffer small: an application that was rejected or completed holds a state timer (days)
 // that keeps its event system alive, at the default capacity that is 800 KB per generated case until the process ends.
-var LogConfig = map[string]string{"log.level": "DPANIC", "event.ringBufferCapacity": "2000", "event.requestCapacity": "1000"}
+var LogConfig = map[string]string{"log.level": "DPANIC", "log.core.diagnostics.level": "ERROR", "event.ringBufferCapacity": "2000", "event.requestCapacity": "1000"}
 
 // InitLogging silences the core: a production (non development) logger, so DPanic does not panic.
 func InitLogging() {
